@@ -92,15 +92,18 @@ Exts == <<[v |-> Absent, deflate |-> FALSE, clean |-> TRUE],
           [v |-> "permessage-deflate; server_max_window_bits=7; client_max_window_bits=12, permessage-deflate", deflate |-> TRUE, clean |-> FALSE]>>
 Enabled == <<FALSE, TRUE>>
 
-Dev(i) == IF i = 1 THEN 0 ELSE 1
+(* index tuples with at most MaxDev non-default (index # 1) positions, built dimension by dimension *)
+DevCount(t) == Cardinality({d \in DOMAIN t : t[d] # 1})
+RECURSIVE Build(_, _, _)
+Build(rows, d, lens) ==
+    IF d > Len(lens) THEN rows
+    ELSE Build(rows \cup {[r EXCEPT ![d] = v] : r \in {x \in rows : DevCount(x) < MaxDev}, v \in 2..lens[d]}, d + 1, lens)
+Tuples(lens) == Build({[i \in 1..Len(lens) |-> 1]}, 1, lens)
 
 ServerRows ==
-    {[side |-> "server", upgrade |-> Upgrades[a], connection |-> Connections[b], key |-> Keys[c], version |-> Versions[d],
-      origin |-> Origins[e], sub |-> Subs[f], ext |-> Exts[g], enabled |-> Enabled[h]] :
-        <<a, b, c, d, e, f, g, h>> \in
-            {t \in (1..Len(Upgrades)) \X (1..Len(Connections)) \X (1..Len(Keys)) \X (1..Len(Versions)) \X (1..Len(Origins))
-                   \X (1..Len(Subs)) \X (1..Len(Exts)) \X (1..2) :
-                Dev(t[1]) + Dev(t[2]) + Dev(t[3]) + Dev(t[4]) + Dev(t[5]) + Dev(t[6]) + Dev(t[7]) + Dev(t[8]) <= MaxDev}}
+    {[side |-> "server", upgrade |-> Upgrades[t[1]], connection |-> Connections[t[2]], key |-> Keys[t[3]], version |-> Versions[t[4]],
+      origin |-> Origins[t[5]], sub |-> Subs[t[6]], ext |-> Exts[t[7]], enabled |-> Enabled[t[8]]] :
+        t \in Tuples(<<Len(Upgrades), Len(Connections), Len(Keys), Len(Versions), Len(Origins), Len(Subs), Len(Exts), 2>>)}
 
 Required(r) == r.upgrade.ok /\ r.connection.ok /\ r.key.ok /\ r.version.ok
 ServerVerdict(r) ==
@@ -133,12 +136,9 @@ CSubs == <<[offer |-> Absent, v |-> Absent, ok |-> TRUE],
            [offer |-> "chat,superchat", v |-> "chatx", ok |-> FALSE]>>
 
 ClientRows ==
-    {[side |-> "client", status |-> Statuses[a], upgrade |-> RespUpgrades[b], connection |-> RespConnections[c],
-      accept |-> Accepts[d], ext |-> CExts[e], sub |-> CSubs[f]] :
-        <<a, b, c, d, e, f>> \in
-            {t \in (1..Len(Statuses)) \X (1..Len(RespUpgrades)) \X (1..Len(RespConnections)) \X (1..Len(Accepts))
-                   \X (1..Len(CExts)) \X (1..Len(CSubs)) :
-                Dev(t[1]) + Dev(t[2]) + Dev(t[3]) + Dev(t[4]) + Dev(t[5]) + Dev(t[6]) <= MaxDev}}
+    {[side |-> "client", status |-> Statuses[t[1]], upgrade |-> RespUpgrades[t[2]], connection |-> RespConnections[t[3]],
+      accept |-> Accepts[t[4]], ext |-> CExts[t[5]], sub |-> CSubs[t[6]]] :
+        t \in Tuples(<<Len(Statuses), Len(RespUpgrades), Len(RespConnections), Len(Accepts), Len(CExts), Len(CSubs)>>)}
 
 ClientValid(r) == r.status = 101 /\ r.upgrade.ok /\ r.connection.ok /\ r.accept.ok /\ r.ext.ok /\ r.sub.ok
 ClientVerdict(r) ==
